@@ -13,7 +13,7 @@ import os
 import numpy as np
 import z3
 
-from symtm import core, tensor as T, harness
+from symtm import env, core, tensor as T, harness
 from symtm.core import SInt, SLog, ite, s_and, s_or, s_not, s_sum
 from . import common as C
 
@@ -168,6 +168,7 @@ def worker(cfg):
         BIN = Fraction(cfg.get("bin", "1/2"))
 
         def body(ctx):
+            env.PRANGE_ANY_ORDER[0] = bool(cfg.get("prange_any_order"))      # the order of the parallel motif loop is the solver's choice
             X = np.empty((tot,), dtype=object)
             for i in range(tot):
                 v = core.Int("c%d" % i)
@@ -411,6 +412,8 @@ def configs(tier):
     q = tier == "quick"
     cf = [dict(kind="hits", Ls=[3], ws=[2], T=3), dict(kind="hits", Ls=[1], ws=[2], T=2), dict(kind="hits", Ls=[3], ws=[1, 2], T=3),
           dict(kind="hits", Ls=[3, 3], ws=[3], T=2), dict(kind="hits", Ls=[2], ws=[2], T=2), dict(kind="hits", Ls=[0, 2], ws=[1], T=2)]
+    # two motifs with the iterations of the parallel motif loop in ANY order (each motif only ever writes its own hit list)
+    cf.append(dict(kind="hits", Ls=[2], ws=[1, 2], T=2, prange_any_order=True))
     # bin sizes whose reciprocal is not an integer
     cf += [dict(kind="hits", Ls=[2], ws=[2], T=3, bin="3/4"), dict(kind="hits", Ls=[3], ws=[2], T=2, bin="2")]
     if not q:
